@@ -377,6 +377,81 @@ def finalX (h : List (POp Text)) : Nat → Option Text := h.foldl stepX (fun _ =
 
 end Spec
 
+/-! ### The document layer's own bookkeeping (`crates/trust-lsp/src/state/documents.rs`)
+
+`ServerState.documents` (by URI) next to the project's sources (by `SourceKey`).  Modelled over ONE
+spelling per file (URI = key; the other case is where known finding `C13-lsp-symlink-stale-key`
+lives) and over the project's *texts by key* (`projText`, tied to `Project` by `c13_project_view`).
+Function by function: `open_document`, `index_document_impl`, `update_document`, `close_document`,
+`remove_document`, and the victim loop of `enforce_memory_budget` (`[indexing] memory_budget_mb`):
+every victim is a CLOSED document (`if doc.is_open { continue; }`) and is dropped with
+`remove_document`.  Which closed documents are chosen (least recently used first, until the total is
+under `evict_to_percent`) is policy and left open: `evict` takes any list of keys. -/
+
+structure DocLayer (Text : Type) where
+  /-- `documents`: content and `is_open` -/
+  doc : Nat → Option (Text × Bool)
+  /-- the project's text for the key (`Project::set_source_text` / `remove_source`) -/
+  src : Nat → Option Text
+
+def DocLayer.new : DocLayer Text := { doc := fun _ => none, src := fun _ => none }
+
+def upd {α : Type} (f : Nat → α) (k : Nat) (v : α) : Nat → α := fun x => if x = k then v else f x
+
+/-- `remove_document`: `let doc = documents.remove(uri)?;` (nothing else happens without a
+document), then `project.remove_source(&key)`. -/
+def docRemove (s : DocLayer Text) (k : Nat) : DocLayer Text :=
+  match s.doc k with
+  | none => s
+  | some _ => { doc := upd s.doc k none, src := upd s.src k none }
+
+/-- One victim of `enforce_memory_budget`: closed documents only. -/
+def docEvict1 (s : DocLayer Text) (k : Nat) : DocLayer Text :=
+  match s.doc k with
+  | some (_, false) => docRemove s k
+  | _ => s
+
+inductive DOp (Text : Type) where
+  /-- didOpen: `open_document` -/
+  | openDoc (k : Nat) (t : Text)
+  /-- indexing pass, watcher CREATED / CHANGED, `ensure_document`: `index_document_impl` -/
+  | index (k : Nat) (t : Text)
+  /-- didChange: `update_document` -/
+  | change (k : Nat) (t : Text)
+  /-- didClose: `close_document` (the budget pass that follows is an `evict`) -/
+  | close (k : Nat)
+  /-- watcher DELETED / didDeleteFiles: `remove_document` -/
+  | remove (k : Nat)
+  /-- `enforce_memory_budget` with this list of victims -/
+  | evict (ks : List Nat)
+
+def docStep (s : DocLayer Text) : DOp Text → DocLayer Text
+  | .openDoc k t => { doc := upd s.doc k (some (t, true)), src := upd s.src k (some t) }
+  | .index k t =>
+    match s.doc k with
+    | some (_, true) => s                       -- an open document is owned by the editor
+    | some (c, false) =>
+      if c = t then s                           -- `!doc.is_open && doc.content == content`
+      else { doc := upd s.doc k (some (t, false)), src := upd s.src k (some t) }
+    | none => { doc := upd s.doc k (some (t, false)), src := upd s.src k (some t) }
+  | .change k t =>
+    -- `project.set_source_text` unconditionally, the document only `if let Some(doc)`
+    { doc := upd s.doc k ((s.doc k).map fun _ => (t, true)), src := upd s.src k (some t) }
+  | .close k => { s with doc := upd s.doc k ((s.doc k).map fun d => (d.1, false)) }
+  | .remove k => docRemove s k
+  | .evict ks => ks.foldl docEvict1 s
+
+def docRun (h : List (DOp Text)) : DocLayer Text := h.foldl docStep DocLayer.new
+
+/-- The client keeps the protocol: `didChange` only for a document it has opened.  (Without a
+document `update_document` still writes the project: a source nobody can remove.) -/
+def docWf : DocLayer Text → List (DOp Text) → Prop
+  | _, [] => True
+  | s, o :: rest =>
+    (match o with
+     | .change k _ => ∃ c, s.doc k = some (c, true)
+     | _ => True) ∧ docWf (docStep s o) rest
+
 /-! ### A fragment of the analysis itself: enumeration values (finding
 `C13-enum-next-value-overflow`, fixed in /repo by 0bd32a4)
 
